@@ -3,7 +3,7 @@
    encoding of a well-formed value they return the encoding of the edited value (same 'existed' flag, error exactly
    when the spec fails), so every buffer of every history is the encoding of the model state. *)
 From Coq Require Import ZArith List Bool Lia.
-From DG Require Import ProtoWireRef ProtoWireRefProofs ThriftWire ThriftWireProofs CaseFormat ThriftGeneric ThriftGenericProofs
+From DG Require Import ProtoWireRef ProtoWireRefProofs ThriftWire ThriftWireProofs ThriftCanonProofs CaseFormat ThriftGeneric ThriftGenericProofs
   ThriftEdit ThriftEditProofs ThriftEditBytes.
 Import ListNotations.
 Local Open Scope Z_scope.
@@ -194,12 +194,6 @@ Proof.
 Qed.
 
 (* ================= Path.ToRaw writes the encoding of the key the step denotes ================= *)
-Lemma enc_int_to_s n z : enc_int n (to_s (8 * Z.of_nat n) z) = enc_int n z.
-Proof.
-  unfold enc_int. f_equal. f_equal. rewrite pow256_pow2. unfold to_s.
-  rewrite Zminus_mod_idemp_l. f_equal. lia.
-Qed.
-
 Lemma enc_int_to_s8 z : enc_int 1 (to_s 8 z) = enc_int 1 z.  Proof. exact (enc_int_to_s 1 z). Qed.
 Lemma enc_int_to_s16 z : enc_int 2 (to_s 16 z) = enc_int 2 z. Proof. exact (enc_int_to_s 2 z). Qed.
 Lemma enc_int_to_s32 z : enc_int 4 (to_s 32 z) = enc_int 4 z. Proof. exact (enc_int_to_s 4 z). Qed.
@@ -219,22 +213,45 @@ Proof.
   - intros _ Hb. rewrite (Hb b eq_refl). reflexivity.
 Qed.
 
-Lemma raw_key_judge_true sk ko b : raw_key_judge sk ko b = true -> exists kv, ko tt = Some kv /\ encode kv = b.
+Lemma bytes_okb_ok b : bytes_okb b = true -> bytes_ok b.
 Proof.
-  unfold raw_key_judge. destruct sk as [[|? ?]|]; try discriminate. destruct (ko tt) as [kv|]; [|discriminate].
-  intros H. exists kv. split; [reflexivity|]. apply bytes_eqb_eq. exact H.
+  unfold bytes_okb, bytes_ok. rewrite forallb_forall, Forall_forall. intros H x Hx. specialize (H x Hx).
+  unfold byte_okb in H. apply andb_true_iff in H. destruct H as [H1 H2]. apply Z.leb_le in H1. apply Z.ltb_lt in H2.
+  unfold byte_ok. lia.
 Qed.
 
-(* explicit unfolding (by computation on raw_key_ok only): the proofs below never let the unifier look into skip_go *)
+Lemma raw_key_judge_true ko b : raw_key_judge ko b = true -> bytes_ok b /\ exists kv, ko = Some kv.
+Proof.
+  unfold raw_key_judge. intros H. apply andb_true_iff in H. destruct H as [H1 H2]. split; [apply bytes_okb_ok; exact H1|].
+  destruct ko as [kv|]; [exists kv; reflexivity|discriminate H2].
+Qed.
+
+(* explicit unfolding (by computation on raw_key_ok only): the proofs below never let the unifier look into key_of_step *)
 Lemma raw_key_ok_unfold b kt vt es :
-  raw_key_ok (PBinKey b) (VMap kt vt es) = raw_key_judge (skip_go kt b) (fun _ => key_of_step kt (PBinKey b)) b.
+  raw_key_ok (PBinKey b) (VMap kt vt es) = raw_key_judge (key_of_step kt (PBinKey b)) b.
 Proof. reflexivity. Qed.
+
+Lemma key_of_step_bin_eq kt b : key_of_step kt (PBinKey b) =
+  match skip_go kt b with
+  | Some [] => match decode (S (length b)) kt b with Some (kv, []) => Some kv | _ => None end
+  | _ => None
+  end.
+Proof. reflexivity. Qed.
+
+(* a raw key that decodes IS the encoding of the key it denotes (decode_canonical) *)
+Lemma key_of_step_bin_canon kt b kv : bytes_ok b -> key_of_step kt (PBinKey b) = Some kv -> encode kv = b.
+Proof.
+  intros B H. rewrite key_of_step_bin_eq in H. revert H. generalize (skip_go kt b). intros sk H.
+  destruct sk as [[|? ?]|]; try discriminate H.
+  destruct (decode (S (length b)) kt b) as [[kv' [|? ?]]|] eqn:D; try discriminate H. inversion H; subst kv'.
+  destruct (decode_canonical _ _ _ _ _ B D) as [E _]. rewrite app_nil_r in E. symmetry. exact E.
+Qed.
 
 Lemma raw_key_ok_map s kt vt es kv : raw_key_ok s (VMap kt vt es) = true -> key_of_step kt s = Some kv ->
   forall b, s = PBinKey b -> encode kv = b.
 Proof.
-  intros H Hk b ->. rewrite raw_key_ok_unfold in H. destruct (raw_key_judge_true _ _ _ H) as [kv' [Hk' E]]. cbv beta in Hk'.
-  rewrite Hk in Hk'. inversion Hk'; subst kv'. exact E.
+  intros H Hk b ->. rewrite raw_key_ok_unfold in H. destruct (raw_key_judge_true _ _ H) as [B _].
+  exact (key_of_step_bin_canon kt b kv B Hk).
 Qed.
 
 (* ================= setNotFound + replace on an absent LAST step ================= *)
@@ -342,7 +359,7 @@ Proof.
   - cbn [key_pred] in Hp. cbn [key_of_step]. destruct (is_int_type kt) eqn:Ei; [|discriminate Hp]. unfold is_int_type in Ei.
     destruct (kt =? T_BYTE); [eexists; reflexivity|]. destruct (kt =? T_I16); [eexists; reflexivity|].
     destruct (kt =? T_I32); [eexists; reflexivity|]. destruct (kt =? T_I64); [eexists; reflexivity|]. discriminate Ei.
-  - rewrite raw_key_ok_unfold in Hraw. destruct (raw_key_judge_true _ _ _ Hraw) as [kv [Hk _]]. cbv beta in Hk.
+  - rewrite raw_key_ok_unfold in Hraw. destruct (raw_key_judge_true _ _ Hraw) as [_ [kv Hk]].
     exists kv. exact Hk.
 Qed.
 
@@ -699,7 +716,7 @@ Proof.
     destruct (kt =? T_BYTE); [discriminate Hk|]. destruct (kt =? T_I16); [discriminate Hk|].
     destruct (kt =? T_I32); [discriminate Hk|]. destruct (kt =? T_I64); [discriminate Hk|].
     destruct (fx && negb (key_kind_ok (PIntKey n) kt)); reflexivity.
-  - rewrite unset_last_ok_bin, raw_key_ok_unfold in Hu. destruct (raw_key_judge_true _ _ _ Hu) as [kv [Hk' _]]. cbv beta in Hk'.
+  - rewrite unset_last_ok_bin, raw_key_ok_unfold in Hu. destruct (raw_key_judge_true _ _ Hu) as [_ [kv Hk']].
     rewrite Hk in Hk'. discriminate Hk'.
 Qed.
 
